@@ -82,8 +82,8 @@ class JsonParser(DictDecoder):
         """
         try:
             data = self.load_json(source)
-        except ValueError as e:
-            # json.JSONDecodeError and UnicodeDecodeError
+        except (ValueError, RecursionError) as e:
+            # json.JSONDecodeError, UnicodeDecodeError and too deeply nested documents
             raise ParserError(e)
 
         return self.decode(data, clazz)
